@@ -5,7 +5,7 @@ import sys
 sys.path.insert(0, os.path.join(os.environ.get("NREL_ALTRIOS_VERIF_DIR", "/verif"), "mir2smt"))
 import z3
 from cases import Case, Call, Claim  # noqa
-from tmpl import Sym, Raw, Variant, EQ, LE, GE, LT, GT, AND, OR, NOT, IMP, IF, MIN, MAX, ABS, XLE, XLT, XEQ  # noqa
+from tmpl import Sym, Raw, Variant, EQ, LE, GE, LT, GT, AND, OR, NOT, IMP, IF, MIN, MAX, ABS, XLE, XLT, XEQ, XGE, XGT  # noqa
 from values import Seq  # noqa
 
 import schema as _schema
